@@ -28,7 +28,7 @@ import (
 func TestC14(t *testing.T) {
 	r := report.Start("C14")
 	defer r.Finish()
-	nh := r.Pick(48, 2400)
+	nh := r.Cases(48, 2400)
 	for i := 0; i < nh; i++ {
 		id := fmt.Sprintf("hist/%d", i)
 		if !r.Want(id, i) {
